@@ -1,2 +1,3 @@
 pub mod bulkhead;
 pub mod ratelimiter;
+pub mod circuitbreaker;
